@@ -9,9 +9,11 @@ _change_splitlevel / _reset executed in place):
    the level never drops below the entry level, and the state at the end equals the entry state.
 
 Summary of every non-terminal ("balanced"): the splitter state (flags, depth, level, consume_ws) is unchanged.
-Context families:  TOP    : _begin_depth == 0, not _in_declare, level >= 0, not consume_ws
-                   BODY   : _is_create, _begin_depth >= 1, not _in_case, not _in_declare... level >= 1
-                   INCASE : as BODY but _in_case
+Context families (subsets of the splitter's state invariant; see ProductionChecker.in_family):
+   TOP / TOPP : outside any block (_begin_depth == 0), level >= 0 / >= 1
+   XB         : expression or plain statement inside CREATE .. BEGIN (any CASE depth, any loop-header flag)
+   BODY       : procedural statement level inside CREATE .. BEGIN (_in_case == 0, no pending loop header)
+   PROC0/DECL : after the CREATE header, before BEGIN / inside a DECLARE section
 A production whose triple fails yields a concrete script (the production instantiated with minimal bodies).
 """
 import ast
@@ -101,7 +103,7 @@ swhen     : WHEN xcond THEN pstmts
 TOPLEVEL = '''
 plain_terminated : stmt ;
 proc_terminated  : prochdr block ;
-proc_declare     : prochdr DECLARE decls block ;
+proc_declare     : prochdr DECLARE decls BEGIN pstmts END ;
 prochdr   : CREATE prockind NAME ( params ) returnsopt asopt | CREATE_OR_REPLACE prockind NAME ( params ) returnsopt asopt
 prockind  : FUNCTION | PROCEDURE | TRIGGER
 params    : | NAME TYPE | params , NAME TYPE
@@ -146,22 +148,22 @@ def build_grammar():
         if l.startswith('x') or l == 'nestedcase':
             continue
         rules.append((l, r))
-        fam.setdefault(l, {'TOP', 'BODY'})
+        fam.setdefault(l, {'TOP', 'XB'})
     for l, r in xrules:
         rules.append((l, r))
-        fam.setdefault(l, {'TOP', 'BODY', 'INCASE'})
-    fam['junk'] = {'TOPP', 'BODY'}
-    fam['xjunk'] = {'TOPP', 'BODY', 'INCASE'}
+        fam.setdefault(l, {'TOP', 'XB'})
+    fam['junk'] = {'TOPP', 'XB'}
+    fam['xjunk'] = {'TOPP', 'XB'}
     for l, r in case:
         if l == 'xatom':
             rules.append((l, r))
         elif l == 'nestedcase':
             rules.append((l, r))
-            fam[l] = {'TOP', 'BODY', 'INCASE'}
-    fam['caseexpr'] = {'TOP', 'BODY'}
+            fam[l] = {'TOP', 'XB'}
+    fam['caseexpr'] = {'TOP', 'XB'}
     for l, r in plain:
         rules.append((l, r))
-        fam.setdefault(l, {'TOP', 'BODY'})
+        fam.setdefault(l, {'TOP', 'XB'})
     for l, r in proc:
         rules.append((l, r))
         fam.setdefault(l, {'BODY'})
@@ -192,7 +194,7 @@ def terminal_tokens(spelling):
 # ------------------------------------------------------------------------------------------- production checker
 
 ESTABLISHES_CREATE = {'prochdr'}
-FIELDS = ('_in_declare', '_in_case', '_is_create', '_begin_depth', 'level', 'consume_ws')
+FIELDS = ('_in_declare', '_in_case', '_is_create', '_begin_depth', 'level', 'consume_ws', '_in_loop_header')
 
 
 class ProductionChecker:
@@ -229,6 +231,7 @@ class ProductionChecker:
         return ex
 
     def in_family(self, st, me, fam):
+        """context families (all subsets of the state invariant INV of contracts/splitter.py)"""
         o = st.objs[me.oid]
 
         def zz(n):
@@ -238,25 +241,29 @@ class ProductionChecker:
             if isinstance(v, int):
                 return z3.IntVal(v)
             return v.z
+        nocase = zz('_in_case') == 0 if z3.is_int(zz('_in_case')) else z3.Not(zz('_in_case'))
+        anycase = zz('_in_case') >= 0 if z3.is_int(zz('_in_case')) else z3.BoolVal(True)
+        hdr = zz('_in_loop_header') if '_in_loop_header' in o else z3.BoolVal(False)
         cs = [z3.Not(zz('consume_ws'))]
         if fam in ('TOP', 'TOPP'):
-            cs += [zz('_begin_depth') == 0, z3.Not(zz('_in_declare')), zz('level') >= (1 if fam == 'TOPP' else 0)]
+            # (_in_case == 0 follows from INV: _in_case > 0 => _begin_depth >= 1)
+            cs += [zz('_begin_depth') == 0, z3.Not(zz('_in_declare')), zz('level') >= (1 if fam == 'TOPP' else 0),
+                   nocase]
         elif fam == 'PROC0':
-            cs += [zz('_is_create'), zz('_begin_depth') == 0, z3.Not(zz('_in_declare')), z3.Not(zz('_in_case')),
-                   zz('level') >= 0]
+            cs += [zz('_is_create'), zz('_begin_depth') == 0, z3.Not(zz('_in_declare')), nocase, zz('level') >= 0,
+                   z3.Not(hdr)]
         elif fam == 'DECL':
-            cs += [zz('_is_create'), zz('_begin_depth') == 0, zz('_in_declare'), zz('level') >= 1]
-        elif fam == 'BODY':
-            cs += [zz('_is_create'), zz('_begin_depth') >= 1, z3.Not(zz('_in_case')), zz('level') >= 1,
-                   z3.Not(zz('_in_declare'))]
-        elif fam == 'INCASE':
-            cs += [zz('_is_create'), zz('_begin_depth') >= 1, zz('_in_case'), zz('level') >= 1,
-                   z3.Not(zz('_in_declare'))]
+            cs += [zz('_is_create'), zz('_begin_depth') == 0, zz('_in_declare'), zz('level') >= 1, nocase]
+        elif fam == 'XB':       # expression / plain statement inside a procedural body
+            cs += [zz('_is_create'), zz('_begin_depth') >= 1, z3.Not(zz('_in_declare')), zz('level') >= 1, anycase]
+        elif fam == 'BODY':     # procedural statement level inside a body
+            cs += [zz('_is_create'), zz('_begin_depth') >= 1, z3.Not(zz('_in_declare')), zz('level') >= 1, nocase,
+                   z3.Not(hdr)]
         elif fam == 'RESET':
-            cs += [zz('_begin_depth') == 0, z3.Not(zz('_in_declare')), zz('level') == 0, z3.Not(zz('_in_case')),
-                   z3.Not(zz('_is_create'))]
+            cs += [zz('_begin_depth') == 0, z3.Not(zz('_in_declare')), zz('level') == 0, nocase,
+                   z3.Not(zz('_is_create')), z3.Not(hdr)]
         elif fam == 'AFTER_TERMINATOR':
-            cs = [zz('consume_ws'), zz('_begin_depth') >= 0]
+            cs = [zz('consume_ws'), zz('_begin_depth') >= 0, anycase]
         else:
             raise ValueError(fam)
         return z3.And(*cs)
